@@ -29,7 +29,7 @@ def run(tier, seed, replay):
                 "judges it: encoder output vs RFC 4648 s5, decode(encode(x))==x, canonical text decoding to "
                 "the reference bytes, or text with a foreign byte before '=' / length 1 mod 4 being rejected. "
                 "distinct_nontrivial = judged cases of the enumerated modes + distinct (kind,length) descriptors "
-                "of the random long-string mode")
+                "of the random long-string mode; a dictionary mode places one multi-character affix (URL/HTML/JSON escapes of =, + and /, line ends, quotes, BOM; 77 affixes) at the end, start or middle of alphabet text of 33 lengths")
     rep.assumptions = ["reference codec drivers/vh.c:vh_b64u_* (arithmetic, no tables) is correct; cross-checked "
                        "against Python's base64 module on samples in this run",
                        "text containing '=' before the end, and non-canonical trailing bits, are unjudged"]
@@ -43,6 +43,7 @@ def run(tier, seed, replay):
         ("enc", asan, ["--mode", "enc", "--n", 0 if thorough else 2000000]),
         ("cls", asan, ["--mode", "cls", "--n", 8 if thorough else 6]),
         ("rand", asan, ["--mode", "rand", "--n", 40000 if thorough else 4000]),
+        ("dict", asan, ["--mode", "dict"]),
         ("grp4a", fast, ["--mode", "grp4a"]),
         ("grp4", fast, ["--mode", "grp4", "--n", 0 if thorough else 30000000]),
     ]
